@@ -27,6 +27,9 @@ struct Flash {
     // observations
     int reads = 0, writes = 0;
     int last_read_ret = 0, last_write_ret = 0;
+    const uint64_t *source_calls = nullptr; // requests made to the system entropy source so far (owned by the world)
+    bool first_write_seen = false;
+    uint64_t source_calls_at_first_write = 0; // ... when the first write callback of the current operation arrived
     size_t rbytes = 0, wbytes = 0;  // bytes transferred by callbacks that returned the full count
     int rfaulted = 0, wfaulted = 0; // callbacks that were made to fail or fall short
     bool out_of_range = false;
@@ -56,6 +59,7 @@ static int flash_write(const ascon_storage_t *s, size_t off, const unsigned char
     Flash *f = (Flash *)s;
     (void)erase;
     f->writes++;
+    if (!f->first_write_seen) { f->first_write_seen = true; f->source_calls_at_first_write = f->source_calls ? *f->source_calls : 0; }
     if (off + size > f->mem.size()) { f->out_of_range = true; size = off < f->mem.size() ? f->mem.size() - off : 0; }
     if (f->write_fault) f->wfaulted++;
     if (f->write_fault == 1) { if (f->record) f->run->fault("nv.write_err"); return f->last_write_ret = -1; }
@@ -330,6 +334,8 @@ struct PrngWorld : World {
         int w0 = c.flash.writes;
         c.flash.wbytes = 0;
         c.flash.wfaulted = 0;
+        c.flash.source_calls = &c.rng.calls;
+        c.flash.first_write_seen = false;
         int nullp = (int)(op.u(0) % 16 >= 14 ? op.u(0) % 16 - 13 : 0); // 1: NULL storage, 2: NULL state (documented: -1)
         if (nullp) { c.flash.write_fault = c.flash.read_fault = 0; }
         c.flash.power = &c.jb;
@@ -337,7 +343,20 @@ struct PrngWorld : World {
         int r = ascon_random_save_seed(nullp == 2 ? nullptr : c.ram, nullp == 1 ? nullptr : &c.flash.st);
         c.flash.power = nullptr;
         bool drew = c.rng.calls > before.calls;
+        // The seed handed to the storage is generator output like any other: it counts towards the 16384 bytes, and if
+        // the generator was due for fresh entropy the source must have been asked before the seed left the generator.
+        bool produced = c.flash.first_write_seen;
+        bool drew_before_write = produced && c.flash.source_calls_at_first_write > before.calls;
+        if (c.record && produced && c.model_counter >= RESEED_LIMIT) {
+            c.run->probe("reseed_limit.reached_at_save");
+            if (!drew_before_write)
+                c.run->violation("C15", "reseed_after_limit", "ascon_random_save_seed",
+                                 fmt("%zu bytes produced since the last reseed and save_seed handed a seed to the storage without asking the system source first", c.model_counter));
+        }
+        // whether a draw came before or after the seed was squeezed cannot be seen from outside (only that it came before
+        // the seed reached the storage), so a draw anywhere in the call counts as "nothing produced since"
         if (drew) c.model_counter = 0;
+        else if (produced) c.model_counter += ASCON_RANDOM_SAVED_SEED_SIZE;
         if (c.record) {
             c.run->fold_u64((uint64_t)(int64_t)r);
             bool too_small = nullp || c.flash.st.size < ASCON_RANDOM_SAVED_SEED_SIZE;
